@@ -38,6 +38,12 @@
 (* implicit-const value (key = tag, has_children, list of name, form, constant),  *)
 (* and every entry must read back with its own values.                        *)
 (*                                                                            *)
+(* Mode "files": unit version x line program version as independent           *)
+(* dimensions (all 16 pairs), FileIndex attributes naming the added files on   *)
+(* attached entries (and, in a variant, only on a detached one): the write is  *)
+(* refused with IncompatibleLineProgramEncoding, or every file attribute       *)
+(* resolves to the file that was added, DW_AT_stmt_list to the unit's program. *)
+(*                                                                            *)
 (* Every final state: the spec's size table is checked against its emit table *)
 (* (Size = Len(Emit)), the layout is checked for self-consistency, and one    *)
 (* replay case is emitted with the expected read-back or the expected error.  *)
@@ -296,6 +302,28 @@ AbbrevLemma(D) ==
             (L.codes[e1] = L.codes[e2]) <=> (Abbrev(U.ents[e1], U.enc) = Abbrev(U.ents[e2], U.enc))
 
 -----------------------------------------------------------------------------
+(* Mode "files" *)
+EncP(v, w, a, pv) == [version |-> v, word |-> w, asz |-> a, prog |-> pv]
+FileVal(n) == [k |-> "FileIndex", f |-> n]
+FilesFan == /\ c.stage = 0 /\ "uv" \notin DOMAIN c
+            /\ \E uv \in {2, 3, 4, 5} : \E pv \in {2, 3, 4, 5} : c' = [stage |-> 0, uv |-> uv, pv |-> pv]
+FilesNext ==
+    /\ c.stage = 0 /\ "uv" \in DOMAIN c
+    /\ \E w \in {4, 8} : \E variant \in {"attached", "detached", "unused"} :
+         c' = [stage |-> 1, encs |-> <<EncP(c.uv, w, 8, c.pv), Enc(c.pv, 12 - w, 8)>>,
+               calls |-> <<AddCall(1, 1, "DW_TAG_subprogram"), AddCall(1, 1, "DW_TAG_variable"), AddCall(1, 2, "DW_TAG_variable"),
+                           AddCall(2, 1, "DW_TAG_variable"),
+                           SetCall(1, 3, "DW_AT_type", [k |-> "UnitRef", e |-> 2])>>
+                         \o (IF variant = "unused" THEN <<SetCall(1, 2, "DW_AT_decl_line", V("Udata", N(7)))>>
+                             ELSE <<SetCall(1, 2, "DW_AT_decl_file", FileVal(1)), SetCall(1, 3, "DW_AT_decl_file", FileVal(2)),
+                                    SetCall(1, 4, "DW_AT_decl_file", FileVal(1)), SetCall(1, 4, "DW_AT_call_file", FileVal(2))>>)
+                         \o (IF variant = "detached"
+                             THEN <<[op |-> "delete_child", u |-> 1, p |-> 1, e |-> 2],
+                                    [op |-> "delete", u |-> 1, e |-> 3, name |-> "DW_AT_decl_file"],
+                                    [op |-> "delete", u |-> 1, e |-> 3, name |-> "DW_AT_type"]>> ELSE <<>>),
+               be |-> (c.uv + c.pv + w + Salt) % 3 = 0, probe |-> "files"]
+
+-----------------------------------------------------------------------------
 (* Mode "builder": c = [stage, encs, calls, ns (structure calls), nm (modifier calls), last] *)
 BEncs == LET v == <<4, 5, 2, 3>>[(Salt % 4) + 1]  w == IF Salt % 2 = 0 THEN 4 ELSE 8 IN
          <<Enc(v, w, 8), Enc(<<5, 3, 4, 2>>[(Salt % 4) + 1], 12 - w, 4)>>
@@ -349,12 +377,13 @@ SetUnits == /\ c.stage = 0 /\ c.phase = "S" /\ c.ns = 0 /\ c.nu < MaxUnits
             /\ c' = [c EXCEPT !.nu = @ + 1]
 
 Init == c = IF Mode = "kinds" THEN [stage |-> -1]
-            ELSE IF Mode \in {"wide", "lists", "twins"} THEN [stage |-> 0]
+            ELSE IF Mode \in {"wide", "lists", "twins", "files"} THEN [stage |-> 0]
             ELSE [stage |-> 0, phase |-> "S", calls |-> <<>>, ns |-> 0, nm |-> 0, nu |-> 1]
 Next == IF Mode = "kinds" THEN KindsFan \/ KindsNext \/ BadNext \/ Bad3Next
         ELSE IF Mode = "wide" THEN WideFan \/ WideNext
         ELSE IF Mode = "lists" THEN ListsFan \/ ListsNext
         ELSE IF Mode = "twins" THEN TwinsFan \/ TwinsNext
+        ELSE IF Mode = "files" THEN FilesFan \/ FilesNext
         ELSE StructNext \/ ToMods \/ ModNext \/ BuilderFinish \/ SetUnits
 
 -----------------------------------------------------------------------------
@@ -389,7 +418,7 @@ ListsLemma(D, res, be) ==
         LET U == D.units[u]  lenc == LEnc(U.enc, be) IN
         (\E i \in DOMAIN U.rt : LW!MustReject(U.rt[i], lenc, Lp(U))) \/ (\E i \in DOMAIN U.lt : LW!MustReject(U.lt[i], lenc, Lp(U)))
         => ~res.ok
-Inv == (c.stage = 1 /\ (Mode \in {"kinds", "wide", "lists", "twins"} \/ Emit1(c))) =>
+Inv == (c.stage = 1 /\ (Mode \in {"kinds", "wide", "lists", "twins", "files"} \/ Emit1(c))) =>
        LET D == Normalise(Apply(Start(c.encs), c.calls, 1))
            res == WriteResult(D, c.be) IN
        /\ SizeLemma(D)
@@ -397,7 +426,11 @@ Inv == (c.stage = 1 /\ (Mode \in {"kinds", "wide", "lists", "twins"} \/ Emit1(c)
        /\ ListsLemma(D, res, c.be)
        /\ AbbrevLemma(D)
        /\ PrintT(<<"CASE", ToJson([sys |-> "unitw", be |-> c.be, probe |-> c.probe,
-                                   units |-> [u \in DOMAIN c.encs |-> [version |-> c.encs[u].version, format |-> c.encs[u].word,
-                                                                      asz |-> c.encs[u].asz]],
+                                   units |-> [u \in DOMAIN c.encs |->
+                                                IF Prog(c.encs[u]) = 0
+                                                THEN [version |-> c.encs[u].version, format |-> c.encs[u].word, asz |-> c.encs[u].asz]
+                                                ELSE [version |-> c.encs[u].version, format |-> c.encs[u].word, asz |-> c.encs[u].asz,
+                                                      lineprog |-> c.encs[u].prog]],
+                                   alt_err |-> \E u \in DOMAIN D.units : ProgMismatch(D.units[u]),
                                    calls |-> c.calls, beyond |-> Beyond(D), exp |-> res])>>)
 =============================================================================
